@@ -351,7 +351,7 @@ def build_binary(sc, g, extra_defines=()):
 
 
 def cbmc_cmd(g, binary, backend, props=None, trace=False):
-    cmd = ["cbmc", binary, "--json-ui"]
+    cmd = ["cbmc", binary, "--json-ui", "--drop-unused-functions"]   # only obligations of functions reachable from the entry count
     if not g.no_safety and not os.environ.get("XRLV_NO_SAFETY"):
         cmd += SAFETY_FLAGS
     else:
